@@ -33,8 +33,12 @@ type C13Scenario struct {
 	Writers  []C13Writer `json:"writers"`
 	// CloseAfter[s]: side*1000+writer index whose completion triggers Close of stream s by that side (-1: never)
 	CloseAfter []int `json:"close_after"`
-	ResetLink  int   `json:"reset_link"` // -1 none; else link reset after ResetAtWrite writes on dir 0
-	ResetAt    int   `json:"reset_at,omitempty"`
+	// IdleClose[s]: a side (0 opener, 1 accepter) that has no writer on stream s closes
+	// it while the other side's writers run (-1 / absent: nobody); the accepter
+	// closing a stream it never wrote on is a server turning a request down
+	IdleClose []int `json:"idle_close,omitempty"`
+	ResetLink int   `json:"reset_link"` // -1 none; else link reset after ResetAtWrite writes on dir 0
+	ResetAt   int   `json:"reset_at,omitempty"`
 }
 
 const opHdr = 12
@@ -106,6 +110,19 @@ func genC13(g *Gen) any {
 			}
 		}
 		sc.CloseAfter = append(sc.CloseAfter, ca)
+		ic := -1
+		if ca < 0 && g.Bool(0.3) {
+			has := [2]bool{}
+			for _, w := range sc.Writers {
+				if w.Stream == s {
+					has[w.Side&1] = true
+				}
+			}
+			if side := g.Pick(1, 1, 0); !has[side] {
+				ic = side
+			}
+		}
+		sc.IdleClose = append(sc.IdleClose, ic)
 	}
 	if g.Bool(0.15) {
 		sc.ResetLink = g.Int(0, sc.Sess.NConn-1)
@@ -166,7 +183,24 @@ func runC13(c *Ctx, scAny any) {
 	}
 	ops := make([][]*opRec, len(sc.Writers))
 	closeCall := map[[2]int]int{} // (stream, side) -> step at which Close was called
+	closeOK := map[[2]int]bool{}  // (stream, side) -> Close returned nil
 	running := 0
+	for s, side := range sc.IdleClose {
+		if side < 0 || s >= sc.NStreams {
+			continue
+		}
+		s, side := s, side
+		stream := cs[s]
+		if side == 1 {
+			stream = ss[s]
+		}
+		running++
+		simsync.Go("h:idle-closer", func() {
+			defer func() { running-- }()
+			closeCall[[2]int{s, side}] = c.W.Steps
+			closeOK[[2]int{s, side}] = stream.Close() == nil
+		})
+	}
 	for wi, w := range sc.Writers {
 		wi, w := wi, w
 		stream := cs[w.Stream]
@@ -194,7 +228,7 @@ func runC13(c *Ctx, scAny any) {
 			}
 			if w.Stream < len(sc.CloseAfter) && sc.CloseAfter[w.Stream] == wi {
 				closeCall[[2]int{w.Stream, w.Side}] = c.W.Steps
-				stream.Close()
+				closeOK[[2]int{w.Stream, w.Side}] = stream.Close() == nil
 			}
 		})
 	}
@@ -220,7 +254,7 @@ func runC13(c *Ctx, scAny any) {
 		c.Fail("write-liveness", "stuck", "writers still blocked at final quiescence\n%s", c.W.DumpTasks())
 		return
 	}
-	checkC13Tap(c, sc, sw, ids, ops, closeCall)
+	checkC13Tap(c, sc, sw, ids, ops, closeCall, closeOK)
 }
 
 func scriptedReset(afterWrites int) simnet.ScriptedFault {
@@ -233,7 +267,7 @@ type tapFrame struct {
 	step int
 }
 
-func checkC13Tap(c *Ctx, sc *C13Scenario, sw *SessWorld, ids []uint32, ops [][]*opRec, closeCall map[[2]int]int) {
+func checkC13Tap(c *Ctx, sc *C13Scenario, sw *SessWorld, ids []uint32, ops [][]*opRec, closeCall map[[2]int]int, closeOK map[[2]int]bool) {
 	codec, err := NewRefCodec(sc.Sess.Method, sw.Key)
 	if err != nil {
 		panic(err)
@@ -378,6 +412,12 @@ func checkC13Tap(c *Ctx, sc *C13Scenario, sw *SessWorld, ids []uint32, ops [][]*
 						}
 					}
 				}
+			}
+			if closeOK[[2]int{s, side}] && closingSeq < 0 {
+				// a Close that reported success (it was not beaten by the peer's close, and
+				// no send failed in this run) has put its closing frame on the wire
+				c.Fail("seq-close", "close:missing", "side %d stream %d: Close returned nil but no closing frame is on the wire (%d frames of that stream were sent before)", side, s, len(frames))
+				return
 			}
 			if closingSeq >= 0 {
 				c.Probe("closing_frame_checked")
